@@ -451,6 +451,12 @@ def bech32_encode(witver, prog):
     return 'bc1' + ''.join(B32[d] for d in data + [(pm >> 5 * (5 - i)) & 31 for i in range(6)])
 
 
+def bech32_encode_groups(groups):
+    """Bech32 string for an explicit list of 5-bit groups (witness version first), whatever their padding."""
+    pm = bech32_polymod(hrp_expand('bc') + list(groups) + [0] * 6) ^ 1
+    return 'bc1' + ''.join(B32[d] for d in list(groups) + [(pm >> 5 * (5 - i)) & 31 for i in range(6)])
+
+
 def ref_bitcoin(x):
     n = pres(x, ' ', upper=False)
     if n[:3].lower() == 'bc1':
